@@ -132,6 +132,16 @@ CHECKS["C10"] = dict(
          "elements the first k results pull is measured by the bounded event-log driver (one-shot generator domains, k <= 4).",
     note="RWXNode / class-diagram lookups abstracted; isinstance/type/id/hasattr(__iter__) assumed free of user code; ForAll inherently needs the whole quantified domain.",
 )
+CHECKS["C20"] = dict(
+    category="other",
+    technique="contract-based deductive verification: ownership / no-capture obligations on every process-global root (mechanical root enumeration from the ast + heap-reachability posts on the real registration code) + weak-reference census driver",
+    text="Every process-global root of src/krrood (class-level mutable attribute, mutable module global, lru_cache/cache) is enumerated from the ast on "
+         "every run and must be classified; for the roots that may reach user instances the real registration code (Symbol.__new__, update_cache, "
+         "WrappedInstance, add_node, PredicateClassRelation, add_relation, MonitoredContainer._bind_owner/_on_add, SingletonMeta) is executed on a concrete "
+         "heap and the instance must not be strongly reachable from the root afterwards; removal leaves nothing behind by C14. The expression "
+         "registries are classified as the known finding. Level 'other': reclamation itself is measured by the bounded census driver.",
+    note="Trusted: CPython's collector, rustworkx holds payloads strongly, the classification table of the roots (each safe entry states why).",
+)
 NOT_APPLICABLE = {
     "C05": "decided by SQLAlchemy/SQLite semantics acting on generated code; no krrood function body carries it, so no contract within reach can express it (DESIGN.md §4)",
 }
